@@ -641,7 +641,9 @@ func (fc *FuncCtx) evalMulti(x ast.Expr, st *State) []*Value {
 		fc.safety(st, "typeassert", n, ok)
 		return []*Value{fc.fromIface(v, t)}
 	case *ast.FuncLit:
-		fc.unsupp(x, "function literal")
+		// a function literal used as a value: opaque (its body is not executed here)
+		fc.e.note("function literal at " + fc.e.fset.Position(x.Pos()).String() + " is an opaque function value in " + fc.name + " (its body is not verified at this point)")
+		return []*Value{scalar(shFunc, fc.e.fresh("closure", "Int"))}
 	}
 	fc.unsupp(x, "expression %T", x)
 	return nil
